@@ -12,13 +12,18 @@
   and a *result list* says, for every finished call, which datagram the caller sent and which
   datagram the reply it was handed answers.
 
-  The three clauses of the property:
+  The clauses of the property:
    (X) exchanges are not interleaved: the log is  tx rx tx rx … [tx]  where each rx is taken by
        the thread that sent the preceding tx and is the reply to exactly that datagram;
    (S) session sequence numbers strictly increase in transmission order (the only other step
        IPMI allows is the 32-bit wrap 0xffffffff → 1, zero being skipped);
    (O) every caller got the reply to its own request: the reply answers the datagram the
        caller itself transmitted for that call (and the call did not fail).
+   (C) session teardown (Close Session, IPMI v1.5 §18.17 / v2.0 §22.19: the session is gone once the
+       BMC has answered): Close Session is the last datagram of the session — nothing is transmitted
+       after it, by any thread, the interface's own keep-alive included.  (A datagram that did
+       follow would also break (S): the console stops advancing the sequence number of a
+       session it has closed.)  A log without Close Session satisfies (C) trivially.
   Datagram numbers are positions: the n-th transmitted datagram has serial n (checked), so a
   serial names exactly one datagram.
 -/
@@ -28,6 +33,9 @@ inductive WEv where
   | tx (tid serial seq rq cmd : Nat)
   | rx (tid serial : Nat)
 deriving DecidableEq, Repr, Inhabited
+
+/-- Close Session (NetFn App, command 3Ch). -/
+def closeCmd : Nat := 0x3c
 
 /-- May session sequence number `b` follow `a` on the wire? -/
 def seqNext (a b : Nat) : Bool :=
@@ -40,17 +48,21 @@ structure Mon where
   ntx : Nat                    -- datagrams seen
   opn : Option (Nat × Nat)     -- exchange in progress: (tid, serial)
   last : Option Nat            -- session sequence number of the latest datagram
+  closed : Bool := false       -- a Close Session datagram has been transmitted
+  after : Bool := true         -- clause (C) so far
 deriving DecidableEq, Repr
 
-def Mon.init : Mon := ⟨true, true, 0, none, none⟩
+def Mon.init : Mon := ⟨true, true, 0, none, none, false, true⟩
 
 def Mon.step (m : Mon) : WEv → Mon
-  | .tx t n s _ _ =>
+  | .tx t n s _ c =>
     { exch := m.exch && m.opn.isNone && n == m.ntx
       incr := m.incr && (match m.last with | none => true | some a => seqNext a s)
       ntx := m.ntx + 1
       opn := some (t, n)
-      last := some s }
+      last := some s
+      closed := m.closed || c == closeCmd
+      after := m.after && !m.closed }
   | .rx t n =>
     { m with exch := m.exch && m.opn == some (t, n), opn := none }
 
@@ -75,9 +87,11 @@ def ownReply (wire : List WEv) (rs : List Res) : Bool :=
 
 def exchangesOk (wire : List WEv) : Bool := (monitor wire).exch
 def seqIncreasing (wire : List WEv) : Bool := (monitor wire).incr
+/-- Clause (C). -/
+def closeLast (wire : List WEv) : Bool := (monitor wire).after
 
-/-- The property oracle: all three clauses on a chronological wire log and the results. -/
+/-- The property oracle: all clauses on a chronological wire log and the results. -/
 def accepts (wire : List WEv) (rs : List Res) : Bool :=
-  exchangesOk wire && seqIncreasing wire && ownReply wire rs
+  exchangesOk wire && seqIncreasing wire && ownReply wire rs && closeLast wire
 
 end PyIpmi.Spec.Threads
